@@ -437,3 +437,39 @@ def any_valid_program(stdlib=False):
     """Mix of generated G-SYNTAX programs, corpus programs and mutated corpus programs."""
     return st.one_of(syntax_program(), syntax_program(depth=1, max_statements=12), corpus_strategy(stdlib=stdlib),
                      mutated_corpus_program(stdlib=stdlib))
+
+
+# comments that tools (type checkers, linters, the tokenizer's coding cookie) give a meaning to: CPython's parser itself ignores them
+COMMENTS = ['# type: int', '# type: ignore', '# type: ignore[attr-defined]', '# type: (int) -> int', '#type:x', '# type:', '# type: List[str]', '# noqa', '# fmt: off',
+            '# pragma: no cover', '# -*- coding: utf-8 -*-', '# -*- coding: latin-1 -*-', '# vim: set fileencoding=no_such_codec :', '#!/usr/bin/env python3',
+            '# TODO', '#', '# type: greeting', '# coding=ascii é']
+
+
+@st.composite
+def commented_program(draw):
+    lines = draw(any_valid_program(stdlib=False)).split('\n')
+    for _ in range(draw(st.integers(1, 3))):
+        i = draw(st.integers(0, len(lines) - 1))
+        c = draw(st.sampled_from(COMMENTS))
+        how = draw(st.integers(0, 2))
+        if how == 0:
+            lines[i] = lines[i] + '  ' + c
+        elif how == 1:
+            indent = lines[i][:len(lines[i]) - len(lines[i].lstrip())]
+            lines.insert(i, indent + c)
+        else:
+            lines.insert(i, c)
+    return '\n'.join(lines)
+
+
+def _parses(text):
+    try:
+        ast.parse(text)
+        return True
+    except (SyntaxError, ValueError, RecursionError, MemoryError):
+        return False
+
+
+def valid_commented_program():
+    """Programs with tool comments that are still valid Python (a comment can land inside a string or after a backslash: filtered)."""
+    return commented_program().filter(_parses)
